@@ -2,7 +2,6 @@ package props
 
 import (
 	"fmt"
-	"os"
 	"strings"
 
 	"github.com/go-kid/ioc/app"
